@@ -485,7 +485,7 @@ def frame_job(foot):
 def static_job(windows=False):
     j = Job("symtab", variant="windows-static-storage" if windows else "static-storage",
             bounds={"scope": "all static-storage objects defined in " +
-                    ("reproc/src/process.windows.c" if windows else "the reproc/src POSIX units")})
+                    ("reproc/src/process.windows.c, redirect.windows.c, handle.windows.c, error.windows.c" if windows else "the reproc/src POSIX units")})
     j.structural = True
     return j
 
@@ -578,5 +578,8 @@ META["C10"]["assumptions"] = START_ASSUME + [
 META["C10"]["outside"] = START_OUTSIDE + ["Windows: pipe.windows.c, utf.windows.c and CreateProcessW's use of the handles "
                                           "(only redirect_init/redirect_destroy are encoded there)"]
 add("C05", lambda tier: [winredir_job()])
+add("C04", lambda tier: [winredir_job()])
 add("C18", lambda tier: [static_job(windows=True)])
+add("C11", lambda tier: [static_job(windows=True)])
+add("C20", lambda tier: [static_job(windows=True)])
 add("C03", lambda tier: [cxx_job(2, "clone")])
